@@ -520,6 +520,18 @@ def r17_9(ctx):
     else:
         raise AnalysisError("Syntax.__rich_console__: the range slice is taken of something this rule does not read")
     # premise: the text is stripped of exactly one trailing newline before the split
+    # exactly ONE: highlight() ends the ranged text right after its last selected line, so further new lines at its end are blank
+    # lines of the range; a strip of every trailing new line (str.rstrip / Text.rstrip on the highlighted text) removes them
+    hl_names = {x.targets[0].id for x in walk_local(f.node) if isinstance(x, ast.Assign) and len(x.targets) == 1 and isinstance(x.targets[0], ast.Name) and isinstance(x.value, ast.Call) and norm(x.value.func).endswith(".highlight")}
+    greedy = []
+    for c in walk_local(f.node):
+        if isinstance(c, ast.Call) and isinstance(c.func, ast.Attribute) and c.func.attr in ("rstrip", "strip"):
+            recv = c.func.value
+            base = recv.value if isinstance(recv, ast.Attribute) and recv.attr == "plain" else recv
+            if isinstance(base, ast.Name) and base.id in hl_names:
+                greedy.append(c)
+    for c in greedy:
+        ctx.violation(f.fq, short(c), f"{m.relpath}:{c.lineno}", f"`{short(c)}` strips EVERY trailing new line of the highlighted text: the text of a line range ends right after its last selected line, so when the range ends on blank lines those lines are removed before the split - Syntax('a = 1\\n\\n\\nb = 2', 'python', line_numbers=True, line_range=(1, 2)) shows line 1 only")
     stripped = any(isinstance(c, ast.Call) and isinstance(c.func, ast.Attribute) and c.func.attr in ("remove_suffix", "rstrip") for c in walk_local(f.node))
     if not stripped:
         raise AnalysisError("Syntax.__rich_console__: the trailing newline is no longer removed with remove_suffix; the premise of this rule changed")
